@@ -55,11 +55,19 @@ def gen(ctx):
         groups = LOGIN + xfer("get", comp=comp) + [R(b"200 noop"), R(b"221 bye")]
         yield scenario(groups, files, OPEN + [b"get remote.bin fresh.bin", b"noop", b"exit"])
     # put: missing file, directory, existing file; refused
-    for loc in (b"data.bin", b"keep.txt", b"missing.bin", LONG):
+    for loc in (b"data.bin", b"keep.txt", b"missing.bin", b"sub", LONG):
         for main in (150, 553):
             groups = LOGIN + xfer("put", main=main) + [R(b"200 noop"), R(b"221 bye")]
             yield scenario(groups, files, OPEN + [b"put " + loc, b"noop", b"exit"])
             yield scenario(groups, files, OPEN + [b"put " + loc + b" remote name", b"noop", b"exit"])
+    # active mode: transfers with the peer connecting to the advertised port; a server that accepts the transfer command
+    # but has nothing scripted for the data connection (the harness's implicit data action), or never sends the completion reply
+    for v, kind in ((b"ls", "ls"), (b"get remote.bin fresh.bin", "get"), (b"put data.bin", "put")):
+        for setup in (R(b"200 port ok"), R(b"500 no eprt") , R(b"257 odd but positive")):
+            for tail in (xfer(kind, setup=setup)[1:], [R(b"150 go") + "," + R(b"226 done")], [R(b"213 single positive reply")], [R(b"150 go")], [R(b"550 no")]):
+                groups = LOGIN + [setup] + tail + [R(b"200 noop"), R(b"221 bye")]
+                yield scenario(groups, files, OPEN + [b"active", v, b"noop", b"exit"])
+                yield scenario(groups, files, OPEN + [b"passive", v, b"noop", b"exit"])
     # server misbehaviour: garbage, close at any point of the dialogue, 421, end of input without exit
     dialogue = LOGIN + [R(b"257 \"/\"")] + xfer("ls", payload=b"f1\r\nf2\r\n") + [R(b"200 noop"), R(b"221 bye")]
     script = OPEN + [b"pwd", b"ls", b"noop", b"exit"]
